@@ -58,7 +58,7 @@ PROPS = {
     "C03": {
         "lean": ["Stackage.Props.C03"],
         "streams": [{"name": "capx", "quick": 3000, "thorough": 60000}],
-        "rule": "histories hugging the capacity boundary: push batches that partly fit, Insert, Transfer-into, pop/remove/reset then grow again; "
+        "rule": "capx also applies Marshal-into (one Push of the decoded value: capacity and configuration stay). histories hugging the capacity boundary: push batches that partly fit, Insert, Transfer-into, pop/remove/reset then grow again; "
                 "k in 1..6 (and no capacity), every kind, LIFO/FIFO; Len/Cap/Avail/IsFull and return values compared after every step; "
                 "non-trivial = at least 3 operations of at least 2 kinds",
         "modelled": COMMON_MODELLED,
